@@ -124,8 +124,11 @@ Section Crypto.
     if negb (allowed a) then SExc
     else http_redirect_message k (if response then K_RESP else K_REQ) v rs (Some a) sgn.
 
-  (* sigver.verify_redirect_signature(saml_msg, RSACrypto(own), cert)   (sigkey is never passed) *)
-  Definition verify_redirect_signature (own : key) (q : query) (c : option cert) : vres :=
+  (* sigver.verify_redirect_signature(saml_msg, RSACrypto(own), cert)   (sigkey is never passed).
+     strict = true is the code as it is now (fix 9a4284f6: only the canonical base64 text of the signature
+     value is accepted: base64.b64encode(b64decode(sp)) must equal sp); strict = false is the pinned snapshot,
+     which decoded the Signature parameter leniently (finding C15-F1, kept to recognise a regression) *)
+  Definition verify_redirect_signature_gen (strict : bool) (own : key) (q : query) (c : option cert) : vres :=
     match get q K_ALG with
     | None => VKeyError                                  (* saml_msg["SigAlg"] *)
     | Some alg =>
@@ -143,12 +146,16 @@ Section Crypto.
                     let vk := match c with Some c' => c' | None => cert_of own end in
                     match decode_str sp with
                     | None => VValueError                (* binascii.Error / non-ASCII str *)
-                    | Some s => if verify vk d m s then VTrue else VFalse
+                    | Some s =>
+                        if strict && negb (String.eqb (encode s) sp) then VFalse   (* not the canonical text *)
+                        else if verify vk d m s then VTrue else VFalse
                     end
                 end
             end
         end
     end.
+  Definition verify_redirect_signature := verify_redirect_signature_gen true.
+  Definition verify_redirect_signature_v0 := verify_redirect_signature_gen false.
 
   (* Request._do_redirect_sig_check: any(verify_redirect_signature(msg, backend, cert) for cert in certs);
      an exception raised for the first certificate propagates and the caller turns it into a rejection,
